@@ -233,6 +233,7 @@ var hostilePaths = []string{
 	"../esc", "../../esc2", "../decoy.txt", "../decoydir/x", "..", "a/../../esc3", "a/b/../../../esc4",
 	"@SANDBOX@/abs_esc", "@SANDBOX@/decoy.txt", "/", ".", "", "./../esc5", "../out_sibling/f", "sub/../../esc6",
 	"..\\esc7", "a\x00/../esc8", "../.thruflux_resumedata/x", "....//esc9", "../out/../esc10",
+	"../decoydir", "../out_sibling", "../decoydir/", "x/../../out_sibling",
 }
 var hostileIDs = []string{"../../id_esc", "../id_esc2", "a/b", "@SANDBOX@/id_abs", "..", "x/../../../id_esc3", "../decoy", "../.thruflux_resumedata/decoyid"}
 var benignPaths = []string{"ok.bin", "sub/ok2.bin", "a..b", "dir with space/f", "deep/er/still/f.bin"}
@@ -371,6 +372,17 @@ func (c07Harness) Run(spec any) (res verifsim.RunResult) {
 	os.WriteFile(filepath.Join(sandbox, "decoydir", "x"), []byte("another decoy"), 0o644)
 	os.WriteFile(filepath.Join(sandbox, "out_sibling", "f"), []byte("sibling"), 0o644)
 	os.WriteFile(filepath.Join(sandbox, ".thruflux_resumedata", "decoyid.sbxmap"), []byte("not a sidecar"), 0o644)
+	// other downloads of the user, unfinished, next to this one: their resume metadata lives
+	// in <dir>/.thruflux_resumedata/<id>.sbxmap - and a hostile sender may know (or guess) the
+	// ids: every well-formed item id of this run has such a file in each neighbouring directory
+	for _, it := range sp.Items {
+		if len(it.ID) == 16 && !strings.ContainsAny(it.ID, "/.\\@") {
+			for _, d := range []string{sandbox, filepath.Join(sandbox, "decoydir"), filepath.Join(sandbox, "out_sibling")} {
+				os.MkdirAll(filepath.Join(d, ".thruflux_resumedata"), 0o755)
+				os.WriteFile(filepath.Join(d, ".thruflux_resumedata", it.ID+".sbxmap"), []byte("resume metadata of another download "+it.ID), 0o644)
+			}
+		}
+	}
 	sub := func(s string) string { return strings.ReplaceAll(s, "@SANDBOX@", sandbox) }
 	m := manifest.Manifest{Root: sub(sp.Root)}
 	type fileData struct {
